@@ -9,7 +9,7 @@ KINDS = {
     "exec": dict(exe=1), "write": dict(wr=1), "selfwrite": dict(wr=1, pid=mc.SELF), "both": dict(exe=1, wr=1),
     # process id 0 is what the kernel reports for a process outside the daemon's pid namespace: an ordinary foreign id
     "pid0write": dict(wr=1, pid=0),
-    "none": dict(), "overflow": dict(ovf=1, fd=0), "badvers": dict(vers=0, exe=1), "shortread": dict(read=1, exe=1),
+    "none": dict(), "overflow": dict(ovf=1, fd=-1, pid=0),     # as the kernel sends it: no descriptor (FAN_NOFD), no process "badvers": dict(vers=0, exe=1), "shortread": dict(read=1, exe=1),
     "failedread": dict(read=2, wr=1), "pollerr": dict(poll=2), "pollhup": dict(poll=3), "wakeup": dict(poll=1),
     "execfail": dict(exe=1, execok=0), "writefail": dict(wr=1, writeok=0), "timeoutfail": dict(wr=1, timeout="err"),
 }
